@@ -398,6 +398,23 @@ def _bad_hex_escape_forms():
 STRING_BAD += _non_ascii_bytes_forms()
 STRING_BAD += _bad_hex_escape_forms()
 NUMBER_BAD = ["1__0", "1_", "0x", "0b2", "0o8", "012", "1_e5", "0_x1", "1.5e+", "0b", "0O", "1e", "0x_", "1_.5", "0o", "9e-", "0b12", "0xg", "0_7_", "1.2.3", "1e5e5", "0_", "1j2", "0x1.5", "1_j", "0b1_", "0o1__2", "00_1", "0127", "1e1_", "1__e1", ".5_", "1.e_5"]
+def _leading_zero_forms():
+    """Decimal literals with a redundant leading zero, with underscores in every place (the check that rejects them
+    looks at the text after the underscores are stripped)."""
+    import ast as _ast
+    out = []
+    for z in ("0", "00", "0_0", "000"):
+        for sep in ("", "_"):
+            for tail in ("7", "12", "1_2", "10", "9", "007", "1_0_0", "90", "1" * 25):
+                lit = z + sep + tail
+                try:
+                    _ast.parse("x = " + lit + "\n")
+                except SyntaxError:
+                    out.append(lit)
+    return out
+
+
+NUMBER_BAD += [x for x in _leading_zero_forms() if x not in NUMBER_BAD]
 CONTEXTS = ["x = %s\n", "f(%s)\n", "if a:\n    y = [%s]\n", "class C:\n  def m(self): return (%s)\n", "é = (%s,)\n"]
 
 
